@@ -290,6 +290,23 @@ def gen_measured(rng, n, nsteps, max_digits=5, allow_conf=True, allow_ctrl=True,
             pos = int(rng.integers(len(steps) + 1))
             # keep every earlier control valid: insert as one block
             steps[pos:pos] = motif
+    if allow_ctrl and not terminal_only and n >= 3 and rng.random() < 0.25 and digits + 2 <= max_digits + 2:
+        # key re-measured elsewhere after a control on it: measure k on e; a one-qubit gate and then an operation controlled
+        # by k on a (so the control joins an existing neighbour); k measured again on a third qubit d whose own previous
+        # operation is early.  Anything that orders operations by qubits and keys has to keep the second measurement
+        # behind the control.
+        cands = [k for k in keys if measured.get(k, (2,)) == (2,)]
+        if cands:
+            k = cands[int(rng.integers(len(cands)))]
+            e, d, a = (int(x) for x in rng.choice(n, size=3, replace=False))
+            motif = [{"t": "M", "key": k, "w": (e,)}, {"t": "U", "spec": "H", "p": (), "w": (d,)},
+                     {"t": "U", "spec": ["PauliX", "XPow", "S"][int(rng.integers(3))], "p": (), "w": (a,)}]
+            if motif[2]["spec"] == "XPow":
+                motif[2]["p"] = (0.5, 0.0)
+            inner = {"t": "U", "spec": "PauliX", "p": (), "w": (a,)}
+            motif += [{"t": "C", "cond": {"t": "key", "key": k, "index": -1}, "inner": inner}, {"t": "M", "key": k, "w": (d,)}]
+            pos = int(rng.integers(len(steps) + 1))
+            steps[pos:pos] = motif
     if not any(s["t"] == "M" for s in steps):
         steps.append({"t": "M", "key": keys[0], "w": (int(rng.integers(n)),)})
     return steps
